@@ -11,7 +11,8 @@ Print Assumptions C13_length_field_roundtrip.
 
 (* feed dec now c chunk = parse_all dec now (set_rbuf c (rbuf c ++ chunk)) is exactly what one
    __processConnection call with the READ flag does when recv returns the non-empty chunks bs
-   (then EAGAIN or end of script), no error flag, no timeout, nothing to write *)
+   (then EAGAIN or end of script), no error flag, no timeout, nothing to write; a WRITE flag
+   (with nothing to write) only turns the poller subscription into READ|ERROR *)
 Theorem C13_feed_is_step :
   forall (dec : bytes -> dres) (c : conn) (now : Z) (wr : bool) (ss : list sres)
          (bs : list bytes) (tl : list rres),
@@ -21,7 +22,7 @@ Theorem C13_feed_is_step :
     Forall (fun b => b <> []) bs ->
     match tl with [] => True | REagain :: _ => True | _ => False end ->
     step dec c (EPoll now true wr false false ss (map (fun b => RChunk b false) bs ++ tl))
-    = feed dec now (set_last_read c now) (concat bs).
+    = feed dec now (set_last_read (if wr then set_interest c (Some (RE false)) else c) now) (concat bs).
 Proof. exact step_poll_is_feed. Qed.
 Print Assumptions C13_feed_is_step.
 
@@ -291,7 +292,7 @@ Theorem C13_connecting_establishes :
     st c = Connecting -> now - last_read c <= timeout c -> rd || wr = true ->
     step dec c (EPoll now rd wr false false ss rs) =
       ({| st := Connected; rbuf := rbuf c; wbuf := wbuf c; last_read := now;
-          timeout := timeout c; reconnect := reconnect c |},
+          timeout := timeout c; reconnect := reconnect c; interest := interest c; reuse_fd := reuse_fd c |},
        {| accepted := []; delivered := []; disc_calls := 0; conn_calls := 1; miss := false |}).
 Proof. exact step_establish. Qed.
 Print Assumptions C13_connecting_establishes.
@@ -355,9 +356,106 @@ Theorem C13_timeout_poll_reconnect :
     step dec c (EPoll now rd wr false soerr ss rs) =
       if rd || wr
       then ({| st := Connected; rbuf := []; wbuf := []; last_read := now;
-               timeout := timeout c; reconnect := true |},
+               timeout := timeout c; reconnect := true; interest := Some RWE; reuse_fd := reuse_fd c |},
             {| accepted := []; delivered := []; disc_calls := 1; conn_calls := 1; miss := false |})
       else (connect now c,
             {| accepted := []; delivered := []; disc_calls := 1; conn_calls := 0; miss := false |}).
 Proof. exact timeout_poll_reconnect. Qed.
 Print Assumptions C13_timeout_poll_reconnect.
+
+(* ---- the poller subscription (poller.subscribe / unsubscribe calls of TcpConnection) ----
+   interest c = the mask the connection's current descriptor is subscribed with (None: not
+   subscribed); wants_write c = that mask includes WRITE, i.e. a level-triggered poller WILL
+   report writability. *)
+
+(* every event sequence, after every step (k = number of events processed), from any connection
+   whose subscription fits its state: CONNECTED with bytes in the write buffer => WRITE subscribed;
+   CONNECTING => WRITE subscribed (connect completion is reported as writability); CONNECTED or
+   CONNECTING => READ and ERROR subscribed; DISCONNECTED => not subscribed *)
+Theorem C13_write_interest :
+  forall (dec : bytes -> dres) (es : list event) (c : conn) (k : nat),
+    match st c with
+    | Disconnected => interest c = None
+    | Connecting => interest c = Some RWE
+    | Connected =>
+      exists m, interest c = Some m /\ m_rd m = true /\ m_er m = true /\ (wbuf c <> [] -> m_wr m = true)
+    end ->
+    let c' := fst (run dec c (firstn k es)) in
+    (st c' = Connected -> wbuf c' <> [] -> wants_write c' = true) /\
+    (st c' = Connecting -> wants_write c' = true) /\
+    (st c' <> Disconnected -> exists m, interest c' = Some m /\ m_rd m = true /\ m_er m = true) /\
+    (st c' = Disconnected -> interest c' = None).
+Proof. exact write_interest_thm. Qed.
+Print Assumptions C13_write_interest.
+
+(* in particular from a freshly constructed connection (TcpConnection(poller, socket=s, ...)),
+   with or without a reconnecting callback, whatever descriptor numbers the OS hands out *)
+Theorem C13_write_interest_init :
+  forall (dec : bytes -> dres) (es : list event) (now tmo : Z) (rc ru : bool) (k : nat),
+    let c' := fst (run dec (init_conn now tmo rc ru) (firstn k es)) in
+    (st c' = Connected -> wbuf c' <> [] -> wants_write c' = true) /\
+    (st c' = Connecting -> wants_write c' = true) /\
+    (st c' <> Disconnected -> exists m, interest c' = Some m /\ m_rd m = true /\ m_er m = true) /\
+    (st c' = Disconnected -> interest c' = None).
+Proof. exact write_interest_init. Qed.
+Print Assumptions C13_write_interest_init.
+
+(* fair environment (fair_run): while WRITE is subscribed it delivers the next WRITE event, when
+   WRITE is not subscribed it delivers none; every WRITE event (write_event_ok) is a pure WRITE
+   event before the timeout whose first socket.send takes at least one byte and whose later ones do
+   not fail.  From any CONNECTED connection whose subscription fits its state, length (wbuf c) such
+   events suffice: the write buffer is empty, what the socket accepted is exactly the buffer, no
+   callback ran -- no further send() needed *)
+Theorem C13_writer_progress :
+  forall (dec : bytes -> dres) (ws : list event) (c : conn),
+    match st c with
+    | Disconnected => interest c = None
+    | Connecting => interest c = Some RWE
+    | Connected =>
+      exists m, interest c = Some m /\ m_rd m = true /\ m_er m = true /\ (wbuf c <> [] -> m_wr m = true)
+    end ->
+    st c = Connected ->
+    Forall (write_event_ok (last_read c) (timeout c)) ws ->
+    (length (wbuf c) <= length ws)%nat ->
+    exists c' os,
+      fair_run dec c ws = (c', os) /\
+      st c' = Connected /\ wbuf c' = [] /\ rbuf c' = rbuf c /\
+      concat (map accepted os) = wbuf c /\
+      Forall (fun o => delivered o = [] /\ disc_calls o = 0%nat /\ conn_calls o = 0%nat /\ miss o = false) os.
+Proof. exact writer_progress. Qed.
+Print Assumptions C13_writer_progress.
+
+(* send() as it was before commit 6d311d2 (run_gen _ false true: no subscribe at the end of
+   send()): a concrete event sequence ends CONNECTED with bytes in the write buffer and WRITE not
+   subscribed, and the fair environment never delivers anything; the code as it is ends the same
+   sequence with WRITE subscribed *)
+Theorem C13_old_send_stalls_refuted :
+  exists (dec : bytes -> dres) (es : list event),
+    let c' := fst (run_gen dec false true (init_conn 0 10 false false) es) in
+    st c' = Connected /\ wbuf c' <> [] /\ wants_write c' = false /\
+    (forall ws, fair_run dec c' ws = (c', [])) /\
+    wants_write (fst (run dec (init_conn 0 10 false false) es)) = true.
+Proof. exact old_send_stalls. Qed.
+Print Assumptions C13_old_send_stalls_refuted.
+
+(* the WRITE branch as it was before commit 8fba630 "return unless CONNECTED after
+   __trySendBuffer()" (run_gen _ true false), reconnecting callback, the new socket gets the descriptor number just
+   closed: after k events the connection is CONNECTING without WRITE subscribed, at the end it is
+   CONNECTED with bytes in the write buffer and WRITE not subscribed; the code as it is has WRITE
+   subscribed at both points *)
+Theorem C13_old_write_branch_resubscribes_closed_descr_refuted :
+  exists (dec : bytes -> dres) (es : list event) (k : nat),
+    let c1 := fst (run_gen dec true false (init_conn 0 10 true true) (firstn k es)) in
+    let c2 := fst (run_gen dec true false (init_conn 0 10 true true) es) in
+    st c1 = Connecting /\ wants_write c1 = false /\
+    st c2 = Connected /\ wbuf c2 <> [] /\ wants_write c2 = false /\
+    wants_write (fst (run dec (init_conn 0 10 true true) (firstn k es))) = true /\
+    wants_write (fst (run dec (init_conn 0 10 true true) es)) = true.
+Proof. exact old_write_branch_resubscribes_closed_descr. Qed.
+Print Assumptions C13_old_write_branch_resubscribes_closed_descr_refuted.
+
+(* run_gen with both rules as they are now is run *)
+Theorem C13_run_gen_is_run :
+  forall (dec : bytes -> dres) (es : list event) (c : conn), run_gen dec true true c es = run dec c es.
+Proof. exact run_gen_fixed. Qed.
+Print Assumptions C13_run_gen_is_run.
